@@ -205,8 +205,17 @@ Theorem C17_metrics_perm : forall nodes m m' specs,
 Proof. exact assignments_metrics_perm. Qed.
 Print Assumptions C17_metrics_perm.
 
-(* the node list comes from the node lister (a Go map) unsorted: the assignments
-   are invariant under its order exactly as far as scores do not tie ... *)
+(* the node list comes from the node lister (a Go map); listNodesFromCache sorts
+   it by name (fix f5a4653), so the assignments do not depend on the lister's
+   order at all — full strength, ties of scores included *)
+Theorem C17_assignments_lister_order_independent : forall nodes nodes' m specs,
+  Permutation.Permutation nodes nodes' -> NoDup (map nname nodes) ->
+  assignments (list_nodes nodes) m specs = assignments (list_nodes nodes') m specs.
+Proof. exact assignments_lister_order_independent. Qed.
+Print Assumptions C17_assignments_lister_order_independent.
+
+(* the calculation alone (without the sorted listing) is invariant under the
+   order of its node slice exactly as far as scores do not tie ... *)
 Theorem C17_assignments_node_perm_tie_free : forall nodes nodes' m specs,
   NoDup nodes -> Permutation.Permutation nodes nodes' ->
   (forall s, In s specs -> tie_free (total_score (mlookup m) (chain_of specs (ss_name s))) nodes) ->
@@ -214,8 +223,10 @@ Theorem C17_assignments_node_perm_tie_free : forall nodes nodes' m specs,
 Proof. exact assignments_node_perm_tie_free. Qed.
 Print Assumptions C17_assignments_node_perm_tie_free.
 
-(* ... and NOT in general: two nodes, cap 1, listed in either order (known finding
-   C17-node-lister-order-breaks-ties, reproduced on the real lister) *)
+(* ... and NOT in general: two nodes, cap 1, handed over in either order.  This is
+   the situation before fix f5a4653 (what would happen without the sort in
+   listNodesFromCache); it was reproduced on the real lister then and is no
+   longer a known finding *)
 Theorem C17_node_order_refuted :
   exists nodes nodes' m specs,
     Permutation.Permutation nodes nodes' /\ NoDup (map nname nodes) /\
